@@ -3108,6 +3108,9 @@ psf_open_file (SF_PRIVATE *psf, SF_INFO *sfinfo)
 		{	error = SFE_ZERO_MAJOR_FORMAT ;
 			goto error_exit ;
 			} ;
+
+		/* A new file has no frames yet, whatever the caller left in SF_INFO. */
+		psf->sf.frames = 0 ;
 		if ((SF_CODEC (psf->sf.format)) == 0)
 		{	error = SFE_ZERO_MINOR_FORMAT ;
 			goto error_exit ;
